@@ -15,6 +15,7 @@ import (
 
 func init() {
 	register(&PropertyCheck{ID: "C01", Level: "other", Run: checkC01, Canaries: []Canary{
+		{Name: "dispatch-starts-from-constructor-defaults", Rule: "R1.1", Where: "Connect", Edits: []Edit{{"packet.go", "\t\tp = &Connect{fixed: f.fixed}", "\t\tq := NewConnect()\n\t\tq.fixed = f.fixed\n\t\tp = q"}}},
 		{Name: "keepalive-dropped-both-sides", Rule: "R1.3", Where: "ConnAck", Edits: []Edit{
 			{"connack.go", "\ti += p.serverKeepAlive.fillProp(b, i, ServerKeepAlive)\n", ""},
 			{"connack.go", "\t\tServerKeepAlive:       func() wireType { return &p.serverKeepAlive },\n", ""}}},
@@ -108,7 +109,23 @@ func checkC01(p *Prog, c *Check) {
 		emitted := map[string]bool{}
 		written := map[string]string{} // field path suffix -> setter
 		n := 0
-		for _, spec := range p.stateSpecs(tn) {
+		specs := p.stateSpecs(tn)
+		// C01's domain (unlike C02's) includes a protocol name and version other than the defaults, the empty
+		// name and version 0 among them: the cleared states once more with those two setters cleared as well
+		for _, spec := range append([]stateSpec(nil), specs...) {
+			if strings.HasPrefix(spec.name, "all set, then cleared with zero values") && p.Method(tn, "SetProtocolName") != nil {
+				sp, orig := spec, spec.choose
+				sp.name = strings.Replace(spec.name, "zero values", "zero values, protocol name and version too", 1)
+				sp.choose = func(n string) int {
+					if n == "SetProtocolName" || n == "SetProtocolVersion" {
+						return stateClear
+					}
+					return orig(n)
+				}
+				specs = append(specs, sp)
+			}
+		}
+		for _, spec := range specs {
 			if spec.will == 1 && will == nil {
 				w, why := p.willState()
 				if w == nil {
